@@ -6,6 +6,9 @@ import YarlProofs.Lemmas.FixLemmas
   Continued in C07HeadlineMore.lean (theorems that need modules which import this file).
   Continued further in C07HeadlineMore3.lean (C07Encoded.lean, added after both files: `URL.build(…, encoded=True)` stores
   its arguments verbatim, its raw authority accessors, which calls raise; `str()` of `encoded=True` URLs).
+  Continued further in C07HeadlineMore4.lean (C07Regex.lean over Lemmas/Regex.lean: `Rfc.appendixB` is the regular
+  expression printed in RFC 3986 Appendix B, `Rfc.authoritySplit` is a split by three regular expressions and agrees
+  with the RFC 3986 §3.2 grammar; GAPS 6, 7, 10, 11).
 
   C07 | Parsing is the RFC 3986 decomposition of the input |
   "For every input string, the scheme, authority, path, query and fragment the library extracts equal the RFC 3986
@@ -256,13 +259,44 @@ GAPS:
     (…_recompose_by_the_letter).  `raw_query_string` = `u.query`, `raw_fragment` = `u.fragment`, `raw_authority` =
     `u.netloc` remain definitional.
  5. Non-ASCII authority: the NFKC screen (`checkNetloc`) is only characterised as "ok / ValueError / oracle miss"
-    (C07_split_total); what it rejects is property C16.
- 6. Appendix B faithfulness: `Rfc.appendixB` is itself a hand transcription of the regular expression; nothing relates
-    it to the regex (no regex semantics in the model).  Its scheme group is restricted to `Gen.schemeChars` and
+    (C07_split_total); what it rejects is property C16.  STILL OPEN, unchanged in this layer.  Model note: since library
+    fix 27f84d3 the screen also drops '[' and ']' before normalising and also rejects an NFKC result containing '[' or
+    ']' (YarlModel/Parse.lean `checkNetloc`); every C07 theorem is stated over the current `checkNetloc` and none of
+    them depends on which characters it looks for.
+ 6. Appendix B faithfulness.  WAS: `Rfc.appendixB` is itself a hand transcription of the regular expression; nothing
+    relates it to the regex (no regex semantics in the model).  Its scheme group is restricted to `Gen.schemeChars` and
     lower-cased, which is urllib's behaviour rather than Appendix B's.
+    CLOSED — relative to the generic matcher of GAPS 10 — by C07_appendixBRe_is_text, C07_appendixBTailRe_is_text,
+    C07_appendixB_is_regex, C07_split_url_is_regex (C07Regex.lean), see
+    C07_headline_appendixB_is_the_rfc_regular_expression and C07_headline_five_components_are_regex_groups
+    (C07HeadlineMore4.lean).  Proved, for EVERY text: the TEXT `^(([^:/?#]+):)?(//([^/?#]*))?([^?#]*)(\?([^#]*))?(#(.*))?`
+    of RFC 3986 Appendix B, parsed by `Regex.parseRe` and run by the backtracking matcher `Regex.matchK`, yields groups
+    whose `$2` (lower-cased), `$4`, `$5`, `$7`, `$9` (undefined read as empty) are the five components of
+    `Rfc.appendixB Gen.schemeChars` — PROVIDED `$2` is undefined or consists of `scheme_chars` only; otherwise
+    `Rfc.appendixB` equals the same expression WITHOUT its first group applied to the whole text (no scheme).  So the
+    deviation noted in the WAS text is now exact, not removed: "equal the RFC 3986 Appendix B decomposition" is
+    FALSE by the letter for a text like "a_b:c/d?e" (the expression says scheme "a_b", the library and the model say no
+    scheme, path "a_b:c/d"): C07_headline_appendixB_deviation_instance, C07_headline_scheme_test_is_the_only_deviation
+    (`$2 = w` iff the text is `w:rest`, `w` non-empty without `: / ? #`: C07_headline_regex_scheme_group).  The
+    lower-casing of the scheme and the reading "undefined = empty" are built into `regexParts5` (a definition of
+    C07Regex.lean, five lines, to be read); what the reading "undefined = empty" loses is stated by
+    C07_headline_regex_groups_recompose: the RFC 3986 §5.3 recomposition of the groups, delimiters written for the
+    DEFINED groups only, gives back every text (F-C04-empty-delims is the library dropping that distinction).
  7. NEW.  `Rfc.authoritySplit` (C07More.lean) is, like `Rfc.appendixB`, a hand-written reading of the property's
     sentence ("last '@', first ':' of the userinfo, ':' after the host or closing ']'"); RFC 3986 has no such
     algorithm for malformed authorities, so there is nothing further to compare it with.
+    PARTLY CLOSED by C07_authoritySplit_is_regex, C07_split_netloc_is_regex, C07_authoritySplit_rfc_grammar
+    (C07Regex.lean), see C07_headline_authority_split_is_regex, C07_headline_split_netloc_is_regex,
+    C07_headline_authority_split_on_rfc_grammar (C07HeadlineMore4.lean).  Proved: (a) for EVERY text
+    `Rfc.authoritySplit a` equals the split by three regular expressions quoted as text — `((.*)@)?(.*)` (greedy: the
+    LAST '@'), `([^:]*)(:(.*))?` on the userinfo (the FIRST ':'), `hostPortText` on the rest — run by the generic matcher
+    (real backtracking for the last '@'); (b) on every authority text the RFC 3986 §3.2 grammar
+    `[ userinfo "@" ] host [ ":" port ]` generates, with the host a bracketed literal whose body is of
+    unreserved / sub-delims / ':' (`isIpLiteralBody`) or an unbracketed text of unreserved / sub-delims / '%'
+    (`isRegNameText`) and the port of digits (`isPortText`) — these are hypotheses `hh`, `hp` of the theorem — the result
+    is exactly the grammatical parts, the userinfo cut at its first ':'.  Outside the grammar (b) fails
+    (C07_headline_authority_split_outside_grammar_instance: a "reg-name" "a:b").  STILL OPEN: see GAPS 11 — the three
+    expressions of (a) are ours; for malformed authorities there is still nothing independent to compare with.
  8. NEW.  C07_headline_recompose_by_the_letter carries the hypothesis `hrooted` (under an authority the stored path is
     empty or rooted) for arbitrary `Url` records.  It holds for every parser result by Appendix B and for every URL
     reachable through the auto-encoding API by C15_headline_reachable (C15Headline.lean), but that composition is not
@@ -281,6 +315,36 @@ GAPS:
     auto-encoding route).  `str()` of `encoded=True` URLs: C07_headline_encoded_true_str (cites C06_encoded_str,
     C06Encoded.lean) = C07_headline_recompose_with_accessors plus "no cache" and "authority verbatim unless the explicit
     port is the scheme default"; with_path / joinpath(…, encoded=True) are not treated in this layer.
+10. NEW (trusted definition introduced by the closure of GAPS 6 / 7).  The regular-expression engine Lemmas/Regex.lean
+    (`Re`, `matchK` with `starK`, `regexMatch`, `regexGroups`, `groupsOf`, `parseRe` / `parseAlt` / `parseSet` /
+    `parsePost`; about 160 lines, imports only `Str`) is itself a HAND-WRITTEN semantics of backtracking regular
+    expressions (Perl / Python `re`): nothing in Lean relates it to CPython's `re` module or to the POSIX reading RFC 3986
+    has in mind; the Lean matcher was compared with `re.match(…, re.S).groups()` only on the examples listed in
+    C07Regex.lean (by `decide` on the Lean side; no probe in the evidence run executes the Lean matcher against
+    CPython).  Independently of Lean, the dynamic layer compares the LIBRARY with CPython's `re` on the same expression
+    text (`RE_APPB`, `re.S`, harness/props_a.py) on every run.  The matcher's choices, all stated in the file: `.` matches ANY code point (Python's `re.S`; Python's default `.` excludes a newline, which `cleanUrl` has
+    removed from the inputs of C07_headline_five_components_are_regex_groups but not from an arbitrary `s` of
+    C07_headline_appendixB_is_the_rfc_regular_expression); matching is anchored at the START only (`re.match`) — that
+    the Appendix B match nevertheless covers the whole text follows from C07_headline_regex_groups_recompose; a group
+    under a quantifier keeps its LAST value; an iteration of `*` / `+` must consume at least one code point (differs
+    from Python only for a starred expression that can match the empty text; none occurs in the four expressions
+    used); `parseRe` drops a leading `^`, knows no `$`, `{m,n}`, lazy quantifiers, classes like `\d`, ranges `a-z`
+    (none occurs).  The syntax trees are tied to the quoted TEXTS by computation (`C07_…Re_is_text : parseRe … = some …`
+    by `decide`), so a reader need not trust the trees, only the parser and the matcher.  For a POSIX
+    (leftmost-longest) reading of Appendix B the result is the same only because every quantified class of the
+    expression is delimited by a character outside the class; that remark is not a theorem.
+11. NEW (trusted definitions).  `atText`, `colonText`, `hostPortText` (C07Regex.lean) are OUR regular expressions for
+    the property's sentence, not the RFC's; `hostPortText` =
+    `[^\[]*\[([^\]]*)(\][^:]*(:(.*))?)?|([^:]*)(:(.*))?` in particular encodes the library's tolerance (text before
+    '[' and between ']' and ':' ignored, a missing ']' accepted; GAPS 3) — it was written to match the library, so
+    C07_headline_authority_split_is_regex is a change of notation for the specification, not an independent check.
+    The independent part is C07_headline_authority_split_on_rfc_grammar, whose classes `isRegNameText` /
+    `isIpLiteralBody` / `isPortText` are again hand transcriptions (of RFC 3986 §3.2.2 / §3.2.3 character classes:
+    supersets of the grammar — "%" not required to start a pct-encoded triple, no IPv6 structure) and whose
+    `authorityText` is the hand-written concatenation `[ ui "@" ] host [ ":" port ]`.  `regexParts5`, `schemeAccepted`,
+    `recomposeGroups`, `grp`, `authorityByRegex` (C07Regex.lean) are short definitions that must be read as well.
+    C07Regex.lean treats the parser (`splitUrl`, `splitNetloc`) only; it adds nothing for the accessors of a
+    constructed URL beyond what GAPS 1 / 2 already compose with `Rfc.appendixB` / `Rfc.authoritySplit`.
 -/
 
 end Yarl
